@@ -40,7 +40,11 @@ def run(path):
 
 def main():
     paths = sorted(glob.glob(VERIF + "/seeded/neutral/*.diff"))
-    out = {}
+    only = os.environ.get("NEUTRAL_ONLY")  # comma separated name prefixes
+    if only:
+        paths = [p for p in paths if any(os.path.basename(p).startswith(x) for x in only.split(","))]
+    rp = VERIF + "/seeded/neutral/RESULTS.json"
+    out = json.load(open(rp)) if os.path.exists(rp) else {}
     with cf.ThreadPoolExecutor(4) as ex:
         for name, res in ex.map(run, paths):
             out[name] = res
